@@ -61,10 +61,16 @@ pub fn spawn_tftpd(extra: &[&str], ipv6: bool) -> Result<Proc, String> {
         let mut cmd = Command::new(tftpd_path());
         // "@first:" arguments go in front of -d (flag order must not matter); "{dir}" is replaced by the sandbox directory
         let fix = |a: &str| a.trim_start_matches("@first:").replace("{dir}", &dir);
+        // "@reldir": the served directory is given as "." (relative), with the process started inside it
+        let reldir = extra.iter().any(|a| *a == "@reldir");
         let first: Vec<String> = extra.iter().filter(|a| a.starts_with("@first:")).map(|a| fix(a)).collect();
-        let rest: Vec<String> = extra.iter().filter(|a| !a.starts_with("@first:")).map(|a| fix(a)).collect();
+        let rest: Vec<String> = extra.iter().filter(|a| !a.starts_with("@first:") && **a != "@reldir").map(|a| fix(a)).collect();
         let extra = &rest;
-        cmd.args(&first).args(["-i", ip, "-p", &port.to_string(), "-d", &format!("{dir}/srv")]).args(extra).stdin(Stdio::null()).stdout(Stdio::null()).stderr(Stdio::null());
+        let served = if reldir { ".".to_string() } else { format!("{dir}/srv") };
+        if reldir {
+            cmd.current_dir(format!("{dir}/srv"));
+        }
+        cmd.args(&first).args(["-i", ip, "-p", &port.to_string(), "-d", &served]).args(extra).stdin(Stdio::null()).stdout(Stdio::null()).stderr(Stdio::null());
         die_with_parent(&mut cmd);
         let child = cmd.spawn().map_err(|e| format!("spawn: {e}"))?;
         let addr: SocketAddr = format!("{}:{}", if ipv6 { "[::1]" } else { "127.0.0.1" }, port).parse().unwrap();
@@ -207,11 +213,32 @@ pub fn hostile_alphabet() -> Vec<(String, Vec<u8>)> {
     v.push(("RRQ of a directory".into(), rc::request(false, b"sub", &[])));
     v.push(("WRQ into a missing directory".into(), rc::request(true, b"nodir/x", &[])));
     v.push(("RRQ with traversal".into(), rc::request(false, b"../../etc/passwd", &[])));
+    // names that denote the served directory itself
+    for n in [".", "./", "/", "\\", "..", "sub/..", "sub/", "./."] {
+        v.push((format!("RRQ name {n:?}"), rc::request(false, n.as_bytes(), &[])));
+        v.push((format!("WRQ name {n:?}"), rc::request(true, n.as_bytes(), &[])));
+    }
+    // names near the 512-octet request limit made of multi-byte characters (every alignment of a character boundary
+    // relative to any fixed cut-off), as a missing file and as a traversal — both are quoted in the ERROR reply
+    for (ch, width) in [("\u{e9}", 2usize), ("\u{20ac}", 3), ("\u{1f600}", 4)] {
+        for pad in 0..width {
+            for total in [470usize, 500] {
+                let body = ch.repeat((total - pad) / width);
+                let name = format!("{}{}", "a".repeat(pad), body);
+                v.push((format!("RRQ missing name of {} octets of {width}-byte characters (offset {pad})", name.len()), rc::request(false, name.as_bytes(), &[])));
+                let tr = format!("../{name}");
+                v.push((format!("RRQ traversal name of {} octets of {width}-byte characters (offset {pad})", tr.len()), rc::request(false, tr.as_bytes(), &[])));
+            }
+        }
+    }
     v
 }
 
-fn cfg_args(single: bool, read_only: bool) -> Vec<&'static str> {
+fn cfg_args(single: bool, read_only: bool, reldir: bool) -> Vec<&'static str> {
     let mut a = vec![];
+    if reldir {
+        a.push("@reldir");
+    }
     if single {
         a.push("-s");
     }
@@ -222,8 +249,8 @@ fn cfg_args(single: bool, read_only: bool) -> Vec<&'static str> {
 }
 
 /// one sequence against a fresh server. Returns (verdict clause or None, detail)
-fn run_sequence(single: bool, read_only: bool, seq: &[(usize, bool)], alpha: &[(String, Vec<u8>)], after_transfer: bool) -> Result<(Option<(String, String)>, String), String> {
-    let mut p = spawn_tftpd(&cfg_args(single, read_only), false)?;
+fn run_sequence(single: bool, read_only: bool, seq: &[(usize, bool)], alpha: &[(String, Vec<u8>)], after_transfer: bool, reldir: bool) -> Result<(Option<(String, String)>, String), String> {
+    let mut p = spawn_tftpd(&cfg_args(single, read_only, reldir), false)?;
     let s1 = udp_client(false);
     let s2 = udp_client(false);
     if after_transfer {
@@ -332,6 +359,7 @@ pub fn cell(spec: &Value) -> Value {
     let hi = (spec["hi"].as_u64().unwrap() as usize).min(alpha.len());
     let len2 = spec["len2"].as_bool().unwrap_or(false);
     let after = spec["after_transfer"].as_bool().unwrap_or(false);
+    let reldir = spec["reldir"].as_bool().unwrap_or(false);
     let mut seqs: Vec<Vec<(usize, bool)>> = vec![];
     for i in lo..hi {
         if !len2 {
@@ -350,11 +378,11 @@ pub fn cell(spec: &Value) -> Value {
             break;
         }
         // a failed preparation (not a verdict) is retried with a fresh server before it is reported as a machinery problem
-        let mut r = run_sequence(single, read_only, &seq, &alpha, after);
+        let mut r = run_sequence(single, read_only, &seq, &alpha, after, reldir);
         let mut tries = 1;
         while r.is_err() && tries < 3 {
             c.add_extra("sequences_retried_after_failed_preparation", 1);
-            r = run_sequence(single, read_only, &seq, &alpha, after);
+            r = run_sequence(single, read_only, &seq, &alpha, after, reldir);
             tries += 1;
         }
         c.executions += 1;
@@ -373,8 +401,8 @@ pub fn cell(spec: &Value) -> Value {
                     property: "C05".into(),
                     clause,
                     facts: facts(&[("single", json!(single))]),
-                    what: format!("[{}{}] after {}{:?}: {}", if single { "single-port" } else { "multi-port" }, if read_only { ",read-only" } else { "" }, if after { "a completed download by the same endpoint, then " } else { "" }, names, detail),
-                    replay: json!({"engine": "e2_c05", "single": single, "read_only": read_only, "after_transfer": after, "seq": seq.iter().map(|(i, o)| json!([i, o])).collect::<Vec<_>>(), "names": names}),
+                    what: format!("[{}{}{}] after {}{:?}: {}", if single { "single-port" } else { "multi-port" }, if read_only { ",read-only" } else { "" }, if reldir { ",started inside the served directory with -d ." } else { "" }, if after { "a completed download by the same endpoint, then " } else { "" }, names, detail),
+                    replay: json!({"engine": "e2_c05", "single": single, "read_only": read_only, "after_transfer": after, "reldir": reldir, "seq": seq.iter().map(|(i, o)| json!([i, o])).collect::<Vec<_>>(), "names": names}),
                     weight: seq.len() as u64 * 1000 + seq.iter().map(|x| x.0 as u64).sum::<u64>(),
                 });
             }
@@ -407,6 +435,14 @@ pub fn check(tier: Tier) -> Outcome {
                 cells.push(json!({"single": single, "read_only": read_only, "lo": lo, "hi": lo + step, "len2": false, "after_transfer": true}));
                 lo += step;
             }
+            if !read_only {
+                // the served directory given as "." with the process started inside it (relative paths all the way)
+                let mut lo = 0;
+                while lo < n_alpha {
+                    cells.push(json!({"single": single, "read_only": read_only, "lo": lo, "hi": lo + step, "len2": false, "reldir": true}));
+                    lo += step;
+                }
+            }
             if tier == Tier::Thorough {
                 for i in 0..n_alpha {
                     cells.push(json!({"single": single, "read_only": read_only, "lo": i, "hi": i + 1, "len2": true}));
@@ -418,7 +454,7 @@ pub fn check(tier: Tier) -> Outcome {
     let res = run_cells("c05", cells, &crate::pool_opts(tier));
     let mut out = Outcome::new("C05", "model_checking");
     out.absorb(res, n);
-    out.rule = format!("hostile alphabet of {n_alpha} datagrams (empty, 1 byte, opcodes 0..8 and 0xFFFF with empty / short / 65505-byte tails, requests without NULs, dangling option names and values, non-UTF-8 and empty names, 500 options, non-numeric / negative / signed / hex / huge option values, every boundary value 0,1,7,8,65464,65465,2^16,2^31,2^32,2^63,2^64-1,2^64 for each of the four options in RRQ and WRQ, DATA/ACK/OACK/ERROR to the listening port, directory / missing-directory / traversal names). All sequences of length 1 (also issued by an endpoint that has just completed a download){} x {{multi-port, single-port}} x {{writable, read-only}}, each against a FRESH tftpd process built from /repo. After the sequence the canonical probe (plain RRQ of a 3-block file, completed) must return the right bytes and the process must still be alive. Every sequence is a distinct non-trivial case. states = sequences, transitions = datagrams + probe.", if tier == Tier::Thorough { " and 2 (second datagram from the same and from a different source)" } else { "" });
+    out.rule = format!("hostile alphabet of {n_alpha} datagrams (empty, 1 byte, opcodes 0..8 and 0xFFFF with empty / short / 65505-byte tails, requests without NULs, dangling option names and values, non-UTF-8 and empty names, 500 options, non-numeric / negative / signed / hex / huge option values, every boundary value 0,1,7,8,65464,65465,2^16,2^31,2^32,2^63,2^64-1,2^64 for each of the four options in RRQ and WRQ, DATA/ACK/OACK/ERROR to the listening port, directory / missing-directory / traversal names, names denoting the served directory itself, 470- and 500-octet names of 2-, 3- and 4-byte characters at every alignment). All sequences of length 1 (also issued by an endpoint that has just completed a download; also against a server started inside its directory with -d .){} x {{multi-port, single-port}} x {{writable, read-only}}, each against a FRESH tftpd process built from /repo. After the sequence the canonical probe (plain RRQ of a 3-block file, completed) must return the right bytes and the process must still be alive. Every sequence is a distinct non-trivial case. states = sequences, transitions = datagrams + probe.", if tier == Tier::Thorough { " and 2 (second datagram from the same and from a different source)" } else { "" });
     out.assumptions = vec!["'wedged' is only reported if the probe fails twice in a row with the process alive".into(), "byte strings outside the structured alphabet are C10's business (decoder totality)".into()];
     out
 }
@@ -426,7 +462,7 @@ pub fn check(tier: Tier) -> Outcome {
 pub fn replay(v: &Value) -> String {
     let alpha = hostile_alphabet();
     let seq: Vec<(usize, bool)> = v["seq"].as_array().unwrap().iter().map(|p| (p[0].as_u64().unwrap() as usize, p[1].as_bool().unwrap())).collect();
-    let r = run_sequence(v["single"].as_bool().unwrap(), v["read_only"].as_bool().unwrap(), &seq, &alpha, v["after_transfer"].as_bool().unwrap_or(false));
+    let r = run_sequence(v["single"].as_bool().unwrap(), v["read_only"].as_bool().unwrap(), &seq, &alpha, v["after_transfer"].as_bool().unwrap_or(false), v["reldir"].as_bool().unwrap_or(false));
     rm_rf(&format!("{}/c05", scratch_root()));
     format!("sequence {:?} -> {:?}", v["names"], r)
 }
